@@ -52,7 +52,12 @@ func VerifC29_gateExclusion() {
 	done := make(chan int, nthreads+1)
 	for t := 1; t <= nthreads; t++ {
 		id := t
-		op := vfChoice("op", 3)
+		op := 0
+		if id == 2 && vfTier() == 0 {
+			op = 2 * vfChoice("op", 2) // quick: the second goroutine uses lock or waitAndLock
+		} else {
+			op = vfChoice("op", 3)
+		}
 		// quick: odd goroutines unlock with the condition set, even ones unset; thorough: every combination
 		set := id%2 == 1
 		if vfTier() > 0 {
